@@ -140,6 +140,8 @@ def corpus():
     out += ["R/2015-12-31T00Z/P1D", "R5/20151231T0000Z/PT1H", "R3/P1M/2016-01-31T00:00:00Z", "R/2015/2016",
             "R2/2015-W53-4T06Z/2016-001T06Z", "R1/P1D/2015-365", "R10/+002015-12-31T06:31:01-05:30/P1Y2M",
             "R/PT12H/2015-12-31T00+01"]
+    # recurrences whose points are truncated forms (only a parser told to accept truncated points can read them)
+    out += ["R2/--0101/P1D", "R2/T00/T01", "R2/-0101/P1D", "R/P1D/---05", "R3/-W-1/PT1H", "R/15-12-31T06/P1M"]
     _CORPUS = out
     return out
 
@@ -179,6 +181,8 @@ def parsers():
             ("timepoint_ned0", _tp_parser(num_expanded_year_digits=0, assumed_time_zone=(0, 0)).parse),
             ("duration", DurationParser().parse),
             ("recurrence", TimeRecurrenceParser().parse),
+            ("recurrence_truncated_points", TimeRecurrenceParser(
+                timepoint_parser=_tp_parser(allow_truncated=True, assumed_time_zone=(0, 0))).parse),
         ]
     return _PARSERS
 
@@ -214,7 +218,9 @@ def check_text(ctx, text, origin):
                         ctx.violation("accepted_invalid", sig, case, "a valid TimePoint", {"result": impl.sstr(obj), "why": r[8]})
             elif isinstance(obj, impl.TimeRecurrence):
                 for pt in (obj.start_point, obj.end_point):
-                    if pt is not None:
+                    if pt is not None and pt.truncated:
+                        ctx.count("recurrences_of_truncated_points_accepted(validity not defined)")
+                    elif pt is not None:
                         r = impl.alpha_fast(pt, c)
                         if r[8] is not None:
                             ctx.violation("accepted_invalid", sig, case, "valid anchor points",
